@@ -158,6 +158,15 @@ def run(ctx):
     with Workdir():
         for si in range(n):
             spec = build_session(r, kinds=["capture", "capture", "rcapture", "pause", "pause", "key", "move"], ncmd=r.randint(1, 6))
+            if si % 7 == 3:
+                # the first completed update after the first capture request carries no pixel data (a cursor shape, as servers send
+                # right after SetEncodings): the capture - region captures included - keeps waiting for pixels
+                spec = build_session(r, kinds=["rcapture", "capture", "rcapture", "key"], ncmd=r.randint(1, 3))
+                spec.words = r.choice([["rcapture", "first.png", "1", "1", "4", "3"], ["capture", "first.png"]]) + spec.words
+                spec.delay = 0
+                spec.nocursor = True
+                spec.first_update_cursor_only = True
+                ctx.count("sessions_first_update_cursor_only")
             spec.resizes = True
             spec.midfire = True
             spec.unsolicited = 0.5
